@@ -371,11 +371,32 @@ func c10Codec(c *c10Case) mon.Result {
 	}
 	// determinism after an unrelated call on the same instance
 	{
+		// an unrelated image: other extents AND another plane layout (components,
+		// container) where the syntax allows, so that any per-object scratch sized or
+		// filled by it differs from what the frames under test need
 		uw, uh := 7+c.W%5, 5+c.H%7
-		uinfo := FrameInfo(uw, uh, c.BA, c.BS, c.SPP, c.PR, 0)
-		us := gen.Content(gen.New(c.Frames[0].CSeed^0x55), "noise", uw, uh, c.SPP, c.BS, 0)
+		uba, ubs, uspp := c.BA, c.BS, c.SPP
+		switch c.TS {
+		case ".50":
+			uspp = 4 - c.SPP
+		case ".51":
+			if c.BA == 16 {
+				uba, ubs, uspp = 8, 8, 3
+			} else {
+				uspp = 4 - c.SPP
+			}
+		default:
+			uspp = 4 - c.SPP
+			if c.BA == 8 {
+				uba, ubs = 16, 12
+			} else {
+				uba, ubs = 8, 8
+			}
+		}
+		uinfo := FrameInfo(uw, uh, uba, ubs, uspp, c.PR, 0)
+		us := gen.Content(gen.New(c.Frames[0].CSeed^0x55), "noise", uw, uh, uspp, ubs, 0)
 		tmp := NewPD(uinfo)
-		_ = cd.Encode(NewPD(uinfo, gen.PackN(us, bytesPer)), tmp, c10Params(cd, c.PKind))
+		_ = cd.Encode(NewPD(uinfo, gen.PackN(us, uba/8)), tmp, c10Params(cd, c.PKind))
 		if len(tmp.Frames) == 1 {
 			tmp2 := NewPD(uinfo)
 			_ = cd.Decode(NewPD(uinfo, tmp.Frames[0]), tmp2, nil)
